@@ -1,1 +1,235 @@
-pub fn placeholder() {}
+//! Miri-sized workloads: the same oracles as ktmon, a few hundred cases per process, run by
+//! `cargo +nightly miri test -p ktmiri <filter>` (DESIGN.md §2.3, flavour M).  Every test prints
+//! `KTMIRI <name> cases=<n> distinct=<d> sample=<json>` so that the driver can report what was
+//! actually interpreted.
+
+#[cfg(test)]
+mod tests {
+    use refmodel::gen::{gen_len, gen_seq_any};
+    use refmodel::json::Json;
+    use refmodel::model;
+    use refmodel::rng::{hash_bytes, Rng};
+    use std::collections::HashSet;
+
+    fn seed() -> u64 {
+        std::env::var("KTMIRI_SEED").ok().and_then(|s| s.parse().ok()).unwrap_or(1)
+    }
+    fn n(default: u64) -> u64 {
+        std::env::var("KTMIRI_N").ok().and_then(|s| s.parse().ok()).unwrap_or(default)
+    }
+    fn report(name: &str, cases: u64, distinct: &HashSet<u64>, sample: Json) {
+        println!("KTMIRI {} cases={} distinct={} sample={}", name, cases, distinct.len(), sample.to_string());
+    }
+
+    #[test]
+    fn c01_kmers() {
+        let mut seen = HashSet::new();
+        let total = n(60);
+        let mut sample = Json::Null;
+        for i in 0..total {
+            let mut rng = Rng::keyed(seed(), "miri.c01", i);
+            let k = (i % 31) as usize + 1;
+            let len = gen_len(&mut rng, k, None, k + 12);
+            let (_, seq) = gen_seq_any(&mut rng, len, false);
+            let got: Vec<(u64, u64)> = kmer::kmer::KmerGenerator::new(&seq, k).collect();
+            let exp = model::kmer_pairs(&seq, k);
+            assert_eq!(got, exp, "k-mer iterator differs from the reference for seq={:?} k={}", seq, k);
+            seen.insert(hash_bytes(&seq) ^ k as u64);
+            if i == 0 {
+                sample = Json::obj().set("seq", Json::bytes(&seq)).set("k", Json::u(k));
+            }
+        }
+        // numeric_to_kmer / rev_comp under the interpreter
+        for k in [1usize, 2, 15, 31] {
+            let x = (0x1234_5678_9abc_def0u64) & ((1u64 << (2 * k)) - 1);
+            assert_eq!(kmer::numeric_to_kmer(x, k), model::decode(x, k));
+            assert_eq!(kmer::kmer::KmerGenerator::rev_comp(x, k), model::rc_code(x, k));
+        }
+        report("c01_kmers", total, &seen, sample);
+    }
+
+    #[test]
+    fn c09_minimisers() {
+        let mut seen = HashSet::new();
+        let total = n(60);
+        let mut sample = Json::Null;
+        for i in 0..total {
+            let mut rng = Rng::keyed(seed(), "miri.c09", i);
+            let m = (i % 9) as usize + 1;
+            let w = m + rng.usize(0, 6);
+            let len = gen_len(&mut rng, m, Some(w), w + 14);
+            let (_, seq) = gen_seq_any(&mut rng, len, false);
+            let got: Vec<(u64, usize, usize)> = kmer::minimiser::MinimiserGenerator::new(&seq, w, m).collect();
+            assert_eq!(got, model::minimiser_runs(&seq, w, m), "minimiser runs differ for seq={:?} w={} m={}", seq, w, m);
+            seen.insert(hash_bytes(&seq) ^ (w * 64 + m) as u64);
+            if i == 0 {
+                sample = Json::obj().set("seq", Json::bytes(&seq)).set("w", Json::u(w)).set("m", Json::u(m));
+            }
+        }
+        report("c09_minimisers", total, &seen, sample);
+    }
+
+    #[test]
+    fn c18_kmer_minimisers() {
+        let mut seen = HashSet::new();
+        let total = n(60);
+        let mut sample = Json::Null;
+        for i in 0..total {
+            let mut rng = Rng::keyed(seed(), "miri.c18", i);
+            let m = (i % 9) as usize + 1;
+            let w = m + rng.usize(0, 6);
+            let len = gen_len(&mut rng, m, Some(w), w + 14);
+            let (_, seq) = gen_seq_any(&mut rng, len, false);
+            let a: Vec<(u64, usize, usize, Vec<u64>)> = kmer::kmer_minimisers::KmerMinimiserGenerator::new(&seq, w, m).collect();
+            let proj: Vec<(u64, usize, usize)> = a.iter().map(|x| (x.0, x.1, x.2)).collect();
+            assert_eq!(proj, model::minimiser_runs(&seq, w, m), "runs differ for seq={:?} w={} m={}", seq, w, m);
+            let cat: Vec<u64> = a.iter().flat_map(|x| x.3.iter().copied()).collect();
+            assert_eq!(cat, model::canonical_stream(&seq, w), "w-mers not conserved for seq={:?} w={} m={}", seq, w, m);
+            seen.insert(hash_bytes(&seq) ^ (w * 64 + m) as u64);
+            if i == 0 {
+                sample = Json::obj().set("seq", Json::bytes(&seq)).set("w", Json::u(w)).set("m", Json::u(m));
+            }
+        }
+        report("c18_kmer_minimisers", total, &seen, sample);
+    }
+
+    /// the get_unchecked sites of the composition / coverage per-record routines (C04, C08, C12, C14)
+    #[test]
+    fn c14_unchecked_sites() {
+        use composition::oligo::OligoComputer;
+        use composition::oligocgr::OligoCgrComputer;
+        use coverage::CovComputer;
+        let mut seen = HashSet::new();
+        let total = n(30);
+        let mut sample = Json::Null;
+        let oligo: Vec<OligoComputer> = (1..=3).map(|k| OligoComputer::new("u.fa".into(), "u.out".into(), k)).collect();
+        let ocgr: Vec<OligoCgrComputer> = (1..=3).map(|k| OligoCgrComputer::new("u.fa".into(), "u.out".into(), k, 16)).collect();
+        for i in 0..total {
+            let mut rng = Rng::keyed(seed(), "miri.c14", i);
+            let k = (i % 3) as usize + 1;
+            let len = gen_len(&mut rng, k, None, 30);
+            let (_, seq) = gen_seq_any(&mut rng, len, false);
+            let cols = model::canonical_list(k);
+            let (counts, total_w) = model::oligo_counts(&seq, k, &cols);
+            let v = oligo[k - 1].verif_vectorise_one(&seq);
+            assert_eq!(v.len(), cols.len());
+            for (j, x) in v.iter().enumerate() {
+                let e = if total_w == 0 { 0.0 } else { counts[j] as f64 / total_w as f64 };
+                assert!((x - e).abs() < 1e-12, "oligo value mismatch for seq={:?} k={}", seq, k);
+            }
+            let t = ocgr[k - 1].verif_vectorise_one(&seq).unwrap();
+            assert_eq!(t.len(), cols.len());
+            // coverage histogram with extreme multiplicities
+            let bin_count = rng.usize(1, 5);
+            let bin_size = rng.usize(1, 4);
+            let mut cmap = std::collections::HashMap::new();
+            for c in model::canonical_stream(&seq, k) {
+                cmap.entry(c).or_insert_with(|| *rng.pick(&[0u32, 1, 7, u32::MAX]));
+            }
+            let mut cov = CovComputer::new("u.fa".into(), "u".into(), k, bin_size, bin_count);
+            cov.set_norm(false);
+            let h = cov.verif_vectorise_one(&seq, &cmap);
+            let mut e = vec![0f64; bin_count];
+            for c in model::canonical_stream(&seq, k) {
+                let b = ((cmap[&c] as u64 / bin_size as u64) as usize).min(bin_count - 1);
+                e[b] += 1.0;
+            }
+            assert_eq!(h, e, "coverage histogram mismatch for seq={:?}", seq);
+            seen.insert(hash_bytes(&seq) ^ k as u64);
+            if i == 0 {
+                sample = Json::obj().set("seq", Json::bytes(&seq)).set("k", Json::u(k)).set("bin_count", Json::u(bin_count));
+            }
+        }
+        report("c14_unchecked_sites", total, &seen, sample);
+    }
+
+    /// N threads issuing disjoint in-bounds write_at calls on a heap buffer through MMWriter
+    #[test]
+    fn c14_mmwriter_threads() {
+        use ktio::mmap::MMWriter;
+        let mut seen = HashSet::new();
+        let rounds = n(6).min(12);
+        for r in 0..rounds {
+            let threads = 2 + (r % 3) as usize;
+            let rows = 7usize;
+            let row_len = 5 + r as usize;
+            let header = if r % 2 == 0 { 3 } else { 0 };
+            let mut buf = vec![0u8; header + rows * row_len];
+            {
+                let w: MMWriter<u8> = MMWriter::new(&mut buf[..]);
+                if header > 0 {
+                    unsafe { w.write_at(&vec![b'H'; header], 0) };
+                }
+                let next = std::sync::Mutex::new(0usize);
+                std::thread::scope(|s| {
+                    for _ in 0..threads {
+                        s.spawn(|| loop {
+                            let i = {
+                                let mut g = next.lock().unwrap();
+                                let v = *g;
+                                *g += 1;
+                                v
+                            };
+                            if i >= rows {
+                                break;
+                            }
+                            let row = vec![b'a' + i as u8; row_len];
+                            unsafe { w.write_at(&row, header + i * row_len) };
+                        });
+                    }
+                });
+            }
+            for i in 0..rows {
+                assert!(buf[header + i * row_len..header + (i + 1) * row_len].iter().all(|&b| b == b'a' + i as u8));
+            }
+            seen.insert(r * 100 + threads as u64);
+        }
+        report("c14_mmwriter_threads", rounds, &seen, Json::obj().set("rows", Json::u(7)).set("threads", Json::s("2..4")).set("what", Json::s("disjoint write_at on a heap buffer")));
+    }
+
+    /// count() + merge() on three records, one worker, two chunks (scc map, rayon pool, temp files)
+    #[test]
+    fn c07_counter_small() {
+        let dir = std::env::temp_dir().join(format!("ktmiri-{}", std::process::id()));
+        std::fs::create_dir_all(&dir).unwrap();
+        let inp = dir.join("in.fa");
+        let recs: [&[u8]; 3] = [b"ACGTACGTTG", b"TTGCANACGT", b"ACGTAC"];
+        let mut fa = Vec::new();
+        for (i, r) in recs.iter().enumerate() {
+            fa.extend_from_slice(format!(">r{}\n", i).as_bytes());
+            fa.extend_from_slice(r);
+            fa.push(b'\n');
+        }
+        std::fs::write(&inp, &fa).unwrap();
+        let out = dir.join("out");
+        std::fs::create_dir_all(&out).unwrap();
+        let k = 3;
+        let mut ctr = counter::CountComputer::new(inp.to_string_lossy().into_owned(), out.to_string_lossy().into_owned(), k);
+        // one worker: with two, Miri reports a data race *inside scc 2.2.5* (a `&mut Bucket` is
+        // retagged before the bucket lock is taken) on the unchanged tree - dependency noise, see
+        // DESIGN.md; concurrency of the counter is covered natively (C07 stages) and by filtered TSan
+        ctr.set_threads(1);
+        // base limit of 12 bases per chunk => two chunks
+        ctr.set_max_memory(12.5 * 8.0 / 1_000_000_000f64);
+        ctr.count();
+        ctr.merge(true);
+        let text = std::fs::read_to_string(out.join("kmers.counts")).unwrap();
+        let mut got = std::collections::BTreeMap::new();
+        for l in text.lines() {
+            let (a, b) = l.split_once('\t').unwrap();
+            assert!(got.insert(a.parse::<u64>().unwrap(), b.parse::<u64>().unwrap()).is_none());
+        }
+        let mut exp = std::collections::BTreeMap::new();
+        for r in recs.iter() {
+            for c in model::canonical_stream(r, k) {
+                *exp.entry(c).or_insert(0u64) += 1;
+            }
+        }
+        assert_eq!(got, exp);
+        let _ = std::fs::remove_dir_all(&dir);
+        let mut seen = HashSet::new();
+        seen.insert(1);
+        seen.insert(2);
+        report("c07_counter_small", 2, &seen, Json::obj().set("records", Json::u(3)).set("k", Json::u(3)).set("threads", Json::u(1)).set("chunks", Json::u(2)));
+    }
+}
